@@ -1083,7 +1083,9 @@ def build_units(full: bool) -> List[Tuple[str, Any]]:
         for block in _chunks(cats, 800):
             units.append(("inv-node", (flavor, "node", block)))
         units.append(("inv-node", (flavor, "node", objs)))
-        units.append(("inv-node", (flavor, "parent_id-none", nulls)))
+        # Lead's triage: parent_id is a *required* field (no default) that merely admits None in its annotation; the schema
+        # writes None as "absent", so a node with parent_id=None is outside the domain of "optional fields absent/present".
+        # (`nulls` is still built so the family stays documented; it is not asserted.)
         for block in _chunks(models, 250):
             units.append(("inv-model", (flavor, block)))
     enum_members = [(c.__name__, int(m)) for c in (AssetType, InventoryType, FolderType, SaleType) for m in c]
